@@ -838,3 +838,326 @@ Proof.
   rewrite fold_unfold_at, fold_ones_at by assumption. field. exact Hread.
 Qed.
 End Fold.
+
+(* ==================================================================== lateral: the weight / delay after any history *)
+Lemma is_mat_row n m i : is_mat n m -> (i < n)%nat -> length (nth i m []) = n.
+Proof. intros [Hl Hr] Hi. apply Hr. apply nth_In. lia. Qed.
+
+Lemma map2_is_mat n (f : R -> R -> R) a b : is_mat n a -> is_mat n b -> is_mat n (map2 (map2 f) a b).
+Proof.
+  intros Ha Hb. pose proof Ha as [La Ra]. pose proof Hb as [Lb Rb]. split.
+  - rewrite map2_length. lia.
+  - intros r Hin. apply (In_nth _ _ []) in Hin. destruct Hin as [i [Hi <-]].
+    rewrite map2_length in Hi.
+    rewrite (map2_nth _ _ _ _ [] []) by lia.
+    rewrite map2_length, (is_mat_row n a), (is_mat_row n b) by (try assumption; lia). lia.
+Qed.
+Lemma map2_mat_at n (f : R -> R -> R) a b i j :
+  is_mat n a -> is_mat n b -> (i < n)%nat -> (j < n)%nat ->
+  mat_at (map2 (map2 f) a b) i j = f (mat_at a i j) (mat_at b i j).
+Proof.
+  intros Ha Hb Hi Hj. pose proof Ha as [La _]. pose proof Hb as [Lb _]. unfold mat_at.
+  rewrite (map2_nth _ _ _ _ [] []) by lia.
+  rewrite (map2_nth _ _ _ _ 0 0) by (rewrite ?(is_mat_row n a), ?(is_mat_row n b) by assumption; lia).
+  reflexivity.
+Qed.
+Lemma zeros_like_is_mat n m : is_mat n m -> is_mat n (zeros_like RN m).
+Proof.
+  intros [L Rr]. unfold zeros_like. split; [rewrite map_length; exact L|].
+  intros r Hin. apply in_map_iff in Hin. destruct Hin as [r0 [<- H0]]. rewrite map_length. apply Rr. exact H0.
+Qed.
+Lemma zeros_like_at n m i j : is_mat n m -> (i < n)%nat -> (j < n)%nat -> mat_at (zeros_like RN m) i j = 0.
+Proof.
+  intros Hm Hi Hj. pose proof Hm as [L _]. unfold mat_at, zeros_like. rn_simpl.
+  rewrite (nth_map_lt _ _ _ []) by lia. rewrite (nth_map_lt _ _ _ 0) by (rewrite (is_mat_row n m) by assumption; lia).
+  reflexivity.
+Qed.
+
+Lemma msum_spec n parts :
+  Forall (is_mat n) parts ->
+  match msum RN parts with
+  | None => parts = []
+  | Some m => is_mat n m /\ forall i j, (i < n)%nat -> (j < n)%nat -> mat_at m i j = parts_at parts i j
+  end.
+Proof.
+  induction parts as [|p t IH]; intros HF; simpl; [reflexivity|].
+  inversion HF as [|? ? Hp Ht]; subst. specialize (IH Ht).
+  destruct (msum RN t) as [r|].
+  - destruct IH as [Hr Hat]. split; [apply map2_is_mat; assumption|].
+    intros i j Hi Hj. unfold madd. rewrite (map2_mat_at n) by assumption. rewrite Hat by assumption. reflexivity.
+  - subst t. split; [exact Hp|]. intros i j _ _. simpl. lra.
+Qed.
+
+Lemma acc_apply_spec n param pos neg :
+  is_mat n param -> Forall (is_mat n) pos -> Forall (is_mat n) neg ->
+  is_mat n (acc_apply RN param pos neg) /\
+  forall i j, (i < n)%nat -> (j < n)%nat ->
+    mat_at (acc_apply RN param pos neg) i j = mat_at param i j + parts_at pos i j - parts_at neg i j.
+Proof.
+  intros Hp Hpos Hneg. unfold acc_apply, acc_update.
+  pose proof (msum_spec n pos Hpos) as Sp. pose proof (msum_spec n neg Hneg) as Sn.
+  destruct (msum RN pos) as [p|]; destruct (msum RN neg) as [q|].
+  - destruct Sp as [Mp Ap]. destruct Sn as [Mq Aq].
+    assert (Mu : is_mat n (msub RN p q)) by (apply map2_is_mat; assumption).
+    split; [apply map2_is_mat; assumption|]. intros i j Hi Hj. unfold madd, msub.
+    rewrite (map2_mat_at n) by assumption. unfold msub. rewrite (map2_mat_at n) by assumption.
+    rewrite Ap, Aq by assumption. rn_simpl. lra.
+  - destruct Sp as [Mp Ap]. subst neg.
+    assert (Mz : is_mat n (zeros_like RN p)) by (apply zeros_like_is_mat; exact Mp).
+    assert (Mu : is_mat n (msub RN p (zeros_like RN p))) by (apply map2_is_mat; assumption).
+    split; [apply map2_is_mat; assumption|]. intros i j Hi Hj. unfold madd.
+    rewrite (map2_mat_at n) by assumption. unfold msub. rewrite (map2_mat_at n) by assumption.
+    rewrite Ap, (zeros_like_at n) by assumption. simpl. rn_simpl. lra.
+  - destruct Sn as [Mq Aq]. subst pos.
+    assert (Mz : is_mat n (zeros_like RN q)) by (apply zeros_like_is_mat; exact Mq).
+    assert (Mu : is_mat n (msub RN (zeros_like RN q) q)) by (apply map2_is_mat; assumption).
+    split; [apply map2_is_mat; assumption|]. intros i j Hi Hj. unfold madd.
+    rewrite (map2_mat_at n) by assumption. unfold msub. rewrite (map2_mat_at n) by assumption.
+    rewrite Aq, (zeros_like_at n) by assumption. simpl. rn_simpl. lra.
+  - subst pos neg. split; [exact Hp|]. intros i j _ _. simpl. lra.
+Qed.
+
+Lemma masked_is_mat n v : is_mat n v -> is_mat n (masked RN v).
+Proof.
+  intros [L Rr]. split; [rewrite masked_length; exact L|].
+  intros r Hin. apply (In_nth _ _ []) in Hin. destruct Hin as [i [Hi <-]]. rewrite masked_length in Hi.
+  rewrite masked_row_length. apply Rr. apply nth_In. exact Hi.
+Qed.
+Lemma masked_off_spec v i j : mat_at (masked RN v) i j = off i j (mat_at v i j).
+Proof.
+  unfold off. destruct (Nat.eqb_spec i j) as [->|Hne].
+  - apply masked_diag_zero.
+  - apply masked_off. exact Hne.
+Qed.
+
+Lemma repeat_In {A} (a x : A) n : In x (repeat a n) -> x = a.
+Proof. intros H. apply repeat_spec in H. exact H. Qed.
+Lemma nth_repeat' {A} (a d : A) n i : (i < n)%nat -> nth i (repeat a n) d = a.
+Proof. revert i; induction n as [|n IH]; intros i H; [lia|]. destruct i; simpl; [reflexivity|apply IH; lia]. Qed.
+Lemma expand_spec n v :
+  wf_bval n v -> is_mat n (expand RN n v) /\
+  forall i j, (i < n)%nat -> (j < n)%nat -> mat_at (expand RN n v) i j = bval_at v i j.
+Proof.
+  destruct v as [m|s|r|c]; simpl; intros Hwf.
+  - split; [exact Hwf|reflexivity].
+  - split.
+    + split; [apply repeat_length|]. intros r Hin. apply repeat_In in Hin. subst r. apply repeat_length.
+    + intros i j Hi Hj. unfold mat_at. rewrite !nth_repeat' by lia. reflexivity.
+  - split.
+    + split; [apply repeat_length|]. intros r0 Hin. apply repeat_In in Hin. subst r0. exact Hwf.
+    + intros i j Hi Hj. unfold mat_at. rewrite nth_repeat' by lia. reflexivity.
+  - split.
+    + split; [rewrite map_length; exact Hwf|]. intros r0 Hin. apply in_map_iff in Hin. destruct Hin as [a [<- _]].
+      apply repeat_length.
+    + intros i j Hi Hj. unfold mat_at. rewrite (nth_map_lt _ _ _ 0) by lia. rewrite nth_repeat' by lia. reflexivity.
+Qed.
+
+Definition agree (n : nat) (m : list (list R)) (f : nat -> nat -> R) : Prop :=
+  forall i j, (i < n)%nat -> (j < n)%nat -> mat_at m i j = f i j.
+
+Lemma lat_step_n s o : l_n RN (lat_step RN s o) = l_n RN s.
+Proof.
+  destruct o; simpl; try reflexivity.
+  - unfold lat_set_delay. destruct (l_d RN s); reflexivity.
+  - unfold lat_set_bias. destruct (l_b RN s); reflexivity.
+Qed.
+
+Lemma masked_expand_agree n v :
+  wf_bval n v -> is_mat n (masked RN (expand RN n v)) /\
+  agree n (masked RN (expand RN n v)) (fun i j => off i j (bval_at v i j)).
+Proof.
+  intros Hwf. destruct (expand_spec n v Hwf) as [Hm Hat]. split; [apply masked_is_mat; exact Hm|].
+  intros i j Hi Hj. rewrite masked_off_spec, Hat by assumption. reflexivity.
+Qed.
+Lemma masked_update_agree n p pos neg f :
+  is_mat n p -> Forall (is_mat n) pos -> Forall (is_mat n) neg -> agree n p f ->
+  is_mat n (masked RN (acc_apply RN p pos neg)) /\
+  agree n (masked RN (acc_apply RN p pos neg)) (fun i j => off i j (f i j + parts_at pos i j - parts_at neg i j)).
+Proof.
+  intros Hp Hpos Hneg Hag. destruct (acc_apply_spec n p pos neg Hp Hpos Hneg) as [Hm Hat].
+  split; [apply masked_is_mat; exact Hm|].
+  intros i j Hi Hj. rewrite masked_off_spec, Hat, Hag by assumption. reflexivity.
+Qed.
+
+Lemma lat_step_weight n s o w :
+  l_n RN s = n -> is_mat n (l_w RN s) -> wf_op n o -> agree n (l_w RN s) w ->
+  is_mat n (l_w RN (lat_step RN s o)) /\ agree n (l_w RN (lat_step RN s o)) (wstep w o).
+Proof.
+  intros Hn Hm Hwf Hag. destruct o as [v|v|b|pw nw pd nd|x]; simpl in *.
+  - rewrite Hn. apply masked_expand_agree. exact Hwf.
+  - unfold lat_set_delay. destruct (l_d RN s); simpl; split; assumption.
+  - unfold lat_set_bias. destruct (l_b RN s); simpl; split; assumption.
+  - destruct Hwf as [H1 [H2 _]]. apply masked_update_agree; assumption.
+  - split; assumption.
+Qed.
+
+(* After ANY sequence of operations the stored weight is, entry by entry, what the history of assignments and
+   accumulated updates says, with the diagonal forced to zero at every assignment / update. *)
+Theorem lateral_weight_history ops : forall s n w,
+  l_n RN s = n -> is_mat n (l_w RN s) -> Forall (wf_op n) ops -> agree n (l_w RN s) w ->
+  is_mat n (l_w RN (lat_run RN s ops)) /\ agree n (l_w RN (lat_run RN s ops)) (fold_left wstep ops w).
+Proof.
+  induction ops as [|o ops IH]; intros s n w Hn Hm Hwf Hag; simpl; [split; assumption|].
+  inversion Hwf as [|? ? Ho Hops]; subst.
+  destruct (lat_step_weight _ s o w eq_refl Hm Ho Hag) as [Hm' Hag'].
+  apply IH; try assumption. apply lat_step_n.
+Qed.
+
+Lemma lat_step_delay n s o d f :
+  l_n RN s = n -> l_d RN s = Some d -> is_mat n d -> wf_op n o -> agree n d f ->
+  exists d', l_d RN (lat_step RN s o) = Some d' /\ is_mat n d' /\ agree n d' (dstep f o).
+Proof.
+  intros Hn Hd Hm Hwf Hag. destruct o as [v|v|b|pw nw pd nd|x]; simpl in *.
+  - exists d. auto.
+  - unfold lat_set_delay. rewrite Hd. simpl. rewrite Hn. eexists; split; [reflexivity|].
+    apply masked_expand_agree. exact Hwf.
+  - unfold lat_set_bias. destruct (l_b RN s); simpl; exists d; auto.
+  - rewrite Hd. destruct Hwf as [_ [_ [H3 H4]]]. eexists; split; [reflexivity|].
+    apply masked_update_agree; assumption.
+  - exists d. auto.
+Qed.
+Theorem lateral_delay_history ops : forall s n d f,
+  l_n RN s = n -> l_d RN s = Some d -> is_mat n d -> Forall (wf_op n) ops -> agree n d f ->
+  exists d', l_d RN (lat_run RN s ops) = Some d' /\ is_mat n d' /\ agree n d' (fold_left dstep ops f).
+Proof.
+  induction ops as [|o ops IH]; intros s n d f Hn Hd Hm Hwf Hag; simpl; [exists d; auto|].
+  inversion Hwf as [|? ? Ho Hops]; subst.
+  destruct (lat_step_delay _ s o d f eq_refl Hd Hm Ho Hag) as [d' [Hd' [Hm' Hag']]].
+  apply (IH _ _ d'); try assumption. apply lat_step_n.
+Qed.
+(* without a delay parameter nothing ever creates one *)
+Theorem lateral_no_delay ops : forall s, l_d RN s = None -> l_d RN (lat_run RN s ops) = None.
+Proof.
+  induction ops as [|o ops IH]; intros s H; simpl; [exact H|]. apply IH.
+  destruct o; simpl; try exact H.
+  - unfold lat_set_delay. rewrite H. exact H.
+  - unfold lat_set_bias. destruct (l_b RN s); exact H.
+  - rewrite H. reflexivity.
+Qed.
+
+(* ==================================================================== reshaping helpers / receptive views *)
+(* LinearDense / LinearDirect: like_synaptic and like_input leave the (row-major) data untouched; the shapes go
+   B :: inshape -> [B; prod inshape] -> B :: inshape *)
+Theorem linear_like_input_like_synaptic B (ins : list nat) :
+  (0 < prodn ins)%nat ->
+  flat_shape (B :: ins) = [B; prodn ins] /\ view_shape (B * prodn ins) ins = B :: ins.
+Proof. intros H. split; [reflexivity|]. unfold view_shape. rewrite Nat.div_mul by lia. reflexivity. Qed.
+
+(* presyn_receptive of per-synapse data B x I x O ("b i o -> b o i 1"): entry [b, o, i] is the value of input i for
+   output o, i.e. it lines up with weight[o, i] *)
+Theorem dense_presyn3_spec (d : list (list (list R))) no b o i :
+  (b < length d)%nat -> (o < no)%nat -> (i < length (nth b d []))%nat ->
+  nth i (nth o (nth b (dense_presyn3 RN no d) []) []) 0 = nth o (nth i (nth b d []) []) 0.
+Proof.
+  intros Hb Ho Hi. unfold dense_presyn3, transpose.
+  rewrite (nth_map_lt _ _ _ []) by exact Hb. rewrite map_seq_nth by exact Ho.
+  unfold column. rewrite (nth_map_lt _ _ _ []) by exact Hi. reflexivity.
+Qed.
+(* Conv2D.presyn_receptive of per-filter data B x (C kH kW) x L x F: entry [b, f, n, l] = data[b, n, l, f] *)
+Theorem conv_presyn4_spec (d : list (list (list R))) nf f n l :
+  (f < nf)%nat -> (n < length d)%nat -> (l < length (nth n d []))%nat ->
+  nth l (nth n (nth f (conv_presyn4 RN nf d) []) []) 0 = nth f (nth l (nth n d []) []) 0.
+Proof.
+  intros Hf Hn Hl. unfold conv_presyn4. rewrite map_seq_nth by exact Hf.
+  rewrite (nth_map_lt _ _ _ []) by exact Hn. rewrite (nth_map_lt _ _ _ []) by exact Hl. reflexivity.
+Qed.
+
+Ltac eqb_cases :=
+  repeat match goal with
+         | |- context [(?a =? ?b)%nat] => destruct (Nat.eqb_spec a b); subst; cbn -[Nat.eqb prodn Nat.mul Z.to_nat]
+         end; try reflexivity; try congruence.
+
+(* the post- and presynaptic receptive views broadcast against each other to B x (weight shape) x L *)
+Theorem dense_receptive_broadcast B (ins outs : list nat) :
+  bshape (dense_postsyn_shape (B :: outs)) (dense_presyn2_shape (flat_shape (B :: ins)))
+  = Some ([B] ++ [prodn outs; prodn ins] ++ [1%nat]).
+Proof. unfold bshape. cbn -[Nat.eqb prodn Nat.mul Z.to_nat]. eqb_cases. Qed.
+Theorem direct_receptive_broadcast B (sh : list nat) :
+  bshape (direct_postsyn_shape (B :: sh)) (direct_presyn_shape (flat_shape (B :: sh)))
+  = Some ([B] ++ [prodn sh] ++ [1%nat]).
+Proof. unfold bshape. cbn -[Nat.eqb prodn Nat.mul Z.to_nat]. eqb_cases. Qed.
+Theorem conv_receptive_broadcast g B Fn ho wo n :
+  bshape (conv_postsyn_shape [B; Fn; ho; wo]) (conv_presyn3_shape g [B; n; (ho * wo)%nat])
+  = Some ([B] ++ [Fn; Z.to_nat (gC g); Z.to_nat (kH g); Z.to_nat (kW g)] ++ [(ho * wo)%nat]).
+Proof. unfold bshape. cbn -[Nat.eqb prodn Nat.mul Z.to_nat]. eqb_cases. Qed.
+
+(* ==================================================================== an accepted geometry with a negative output size *)
+(* Outside the property's quantifier (empty output), recorded because it is how the code behaves: the constructor only
+   checks that the PRODUCT Hout*Wout handed to the synapse is positive, so H = W = 1 with a 3x3 kernel is accepted,
+   outshape advertises (F, -1, -1) and every forward raises. *)
+Definition g_neg : geom := mkG 1 1 1 1 3 3 1 1 0 0 1 1.
+Theorem conv_ctor_accepts_negative_output :
+  exists c, conv_ctor RN g_neg 1 [] None = Ok c /\ outH RN g_neg = (-1)%Z /\ outW RN g_neg = (-1)%Z /\
+            forall xs, conv_forward RN c [1; 1; 1; 1]%nat xs = Err ERuntime.
+Proof.
+  assert (Hh : outH RN g_neg = (-1)%Z) by (change (outH RN g_neg) with (outsz_code RN 1 0 1 3 1); rewrite outsz_code_spec by lia; reflexivity).
+  assert (Hw : outW RN g_neg = (-1)%Z) by (change (outW RN g_neg) with (outsz_code RN 1 0 1 3 1); rewrite outsz_code_spec by lia; reflexivity).
+  eexists. split; [|split; [exact Hh|split; [exact Hw|]]].
+  - unfold conv_ctor. rewrite Hh, Hw. reflexivity.
+  - intros xs. unfold conv_forward. simpl c_g. rewrite Hh. reflexivity.
+Qed.
+
+(* ==================================================================== lateral: forward after any history *)
+Lemma lat_step_shape s o : l_shape RN (lat_step RN s o) = l_shape RN s /\ l_B RN (lat_step RN s o) = l_B RN s.
+Proof.
+  destruct o; simpl; try (split; reflexivity).
+  - unfold lat_set_delay. destruct (l_d RN s); split; reflexivity.
+  - unfold lat_set_bias. destruct (l_b RN s); split; reflexivity.
+Qed.
+Lemma lat_run_shape ops : forall s, l_shape RN (lat_run RN s ops) = l_shape RN s /\ l_B RN (lat_run RN s ops) = l_B RN s.
+Proof.
+  induction ops as [|o ops IH]; intros s; simpl; [split; reflexivity|].
+  destruct (IH (lat_step RN s o)) as [H1 H2]. destruct (lat_step_shape s o) as [H3 H4].
+  split; congruence.
+Qed.
+
+(* x (W masked off the diagonal)^T + b, where W is what the whole history of assignments and updates left behind *)
+Theorem lateral_forward_history (s : lat RN) ops w (x out : tensor RN) :
+  let n := l_n RN s in let B := l_B RN s in let s' := lat_run RN s ops in
+  lat_inv s -> is_mat n (l_w RN s) -> Forall (wf_op n) ops -> agree n (l_w RN s) w ->
+  lat_forward RN s' x = Ok out ->
+  length (tdata x) = (B * n)%nat -> (forall bv, l_b RN s' = Some bv -> length bv = n) -> (0 < n)%nat ->
+  tshape out = B :: l_shape RN s /\
+  forall r o, (r < B)%nat -> (o < n)%nat ->
+    nth (r * n + o) (tdata out) 0 =
+    Rsum n (fun i => if (i =? o)%nat then 0 else nth (r * n + i) (tdata x) 0 * fold_left wstep ops w o i)
+    + bias_at (l_b RN s') o.
+Proof.
+  intros n B s' Hinv Hm Hwf Hag Hf Hx Hb Hn.
+  destruct (lateral_weight_history ops s n w eq_refl Hm Hwf Hag) as [Hm' Hag']. fold s' in Hm', Hag'.
+  destruct (lat_run_shape ops s) as [Hs HB]. fold s' in Hs, HB.
+  pose proof (lat_run_inv ops s Hinv) as [Hdz _]. fold s' in Hdz.
+  assert (Hn' : prodn (l_shape RN s') = n) by (rewrite Hs; reflexivity).
+  destruct Hm' as [HL HR].
+  destruct (lateral_forward_spec s' x out Hf Hdz) as [Hsh Hv];
+    try (rewrite ?Hn', ?HB; assumption).
+  rewrite Hs, HB in Hsh. split; [exact Hsh|].
+  intros r o Hr Ho. rewrite Hn', HB in Hv. rewrite (Hv r o Hr Ho). f_equal.
+  apply Rsum_ext; intros i Hi. destruct (i =? o)%nat; [reflexivity|]. rewrite Hag' by assumption. reflexivity.
+Qed.
+
+(* ==================================================================== the delayed branch of LinearDense (einsum) *)
+(* ein.einsum(res, weight, "b i o, o i -> b o") + bias:  out[b, o] = sum_i cur[b, i, o] * W[o, i] + bias[o].
+   (Which currents the delays select is C06; with all delays zero cur[b, i, o] = x[b, i] and this is x W^T + b.) *)
+Theorem linear_delayed_spec (cur3 : list (list (list R))) (W : list (list R)) b I bi o :
+  (bi < length cur3)%nat -> (o < length W)%nat ->
+  length (nth bi cur3 []) = I -> length (nth o W []) = I ->
+  (forall bv, b = Some bv -> length bv = length W) ->
+  nth o (nth bi (linear_delayed RN cur3 W b) []) 0 =
+  Rsum I (fun i => nth o (nth i (nth bi cur3 []) []) 0 * nth i (nth o W []) 0) + bias_at b o.
+Proof.
+  intros Hbi Ho Hm Hw Hb. unfold linear_delayed. rewrite (nth_map_lt _ _ _ []) by exact Hbi.
+  set (m := nth bi cur3 []) in *.
+  set (y := map (fun ow : nat * list R => dot RN (column RN (fst ow) m) (snd ow)) (combine (seq 0 (length W)) W)).
+  assert (Hly : length y = length W).
+  { unfold y. rewrite map_length, combine_length, seq_length. apply Nat.min_id. }
+  assert (Hy : nth o y 0 = Rsum I (fun i => nth o (nth i m []) 0 * nth i (nth o W []) 0)).
+  { unfold y. rewrite (nth_map_lt _ _ _ (0%nat, [])) by (rewrite combine_length, seq_length, Nat.min_id; exact Ho).
+    rewrite combine_nth by (apply seq_length). rewrite seq_nth by exact Ho. simpl fst. simpl snd.
+    rewrite (dot_Rsum _ _ I); [| unfold column; rewrite map_length; exact Hm | exact Hw].
+    apply Rsum_ext; intros i Hi. assert (Hi' : (i < length m)%nat) by (rewrite Hm; exact Hi).
+    unfold column. rewrite (nth_map_lt _ _ _ []) by exact Hi'. reflexivity. }
+  destruct b as [bv|]; simpl bias_at.
+  - pose proof (Hb bv eq_refl) as Hlb. rn_simpl. rewrite (map2_nth _ _ _ _ 0 0) by lia. rewrite Hy. reflexivity.
+  - rewrite Hy. lra.
+Qed.
